@@ -1085,8 +1085,37 @@ Proof.
   - (* PSockClose *)
     inversion H; subst; clear H. unfold SubLaw, QInv, pend, sub_loss, submitted. simp_r.
     rewrite !txs_app, !txs_fail, !txs_map_Free. cbn [app map]. rewrite !app_nil_r.
-    split; [congruence|]. split; [intros E; now rewrite E|]. split; [apply sublist_nil_l|]. intros x. reflexivity.
+    split; [congruence|]. split; [intros E; unfold pend in E; now rewrite E|]. split; [apply sublist_nil_l|]. intros x. reflexivity.
   - inversion H; subst; apply sub_same; auto.
+Qed.
+
+Fixpoint tr_sub (tr : ptrace) : list pmsg := match tr with [] => [] | (o, s, outs) :: r => submitted s o ++ tr_sub r end.
+Fixpoint tr_subloss (tr : ptrace) : list pmsg := match tr with [] => [] | (o, s, outs) :: r => sub_loss s o ++ tr_subloss r end.
+
+(* every history: what reached the transport, then the buffer, then the blocked senders, is an
+   in-order sub-sequence of the messages in the order their sends were SUBMITTED (refused calls
+   excepted) -- all of them, i.e. the transmitted sequence is a prefix of the submitted one,
+   when nothing was dropped by a shrink, a cancel or the socket close *)
+Theorem pair_submission_order_law ops : forall s, fr = true -> PInv s -> QInv s -> ops_ok s ops ->
+  let (s', tr) := pair_run s ops in
+  QInv s' /\
+  sublist (tr_tx tr ++ map (wire_form k) (pend s')) (map (wire_form k) (pend s ++ tr_sub tr)) /\
+  (tr_subloss tr = [] -> tr_tx tr ++ map (wire_form k) (pend s') = map (wire_form k) (pend s ++ tr_sub tr)) /\
+  (forall x, cnt x (map (wire_form k) (pend s ++ tr_sub tr)) = cnt x (tr_tx tr ++ map (wire_form k) (pend s' ++ tr_subloss tr))).
+Proof.
+  induction ops as [|o r IH]; intros s Hfr HI Q Hok; cbn [pair_run].
+  - cbn [tr_tx tr_sub tr_subloss app]. rewrite !app_nil_r. repeat split; auto. apply sublist_refl.
+  - cbn [ops_ok] in Hok. destruct Hok as [Ho Hr]. destruct (pair_step k fx fr s o) as [s1 outs] eqn:S. cbn [fst] in Hr.
+    destruct (pair_step_law _ _ _ _ HI Ho S) as (HI1 & _).
+    destruct (pair_submission_step _ _ _ _ Hfr HI Q Ho S) as (Q1 & E1 & L1 & C1).
+    specialize (IH s1 Hfr HI1 Q1 Hr). destruct (pair_run s1 r) as [s2 tr]. destruct IH as (Q2 & L2 & E2 & C2).
+    cbn [tr_tx tr_sub tr_subloss]. split; [exact Q2|]. split; [|split].
+    + rewrite (app_assoc (pend s)), map_app, <- app_assoc.
+      eapply sublist_trans; [apply sublist_app; [apply sublist_refl|exact L2]|].
+      rewrite map_app, app_assoc. apply sublist_app; [exact L1|apply sublist_refl].
+    + intros E. apply app_eq_nil in E as [Ea Eb]. rewrite (app_assoc (pend s)), map_app, (E1 Ea), <- !app_assoc. f_equal.
+      rewrite (E2 Eb). now rewrite map_app.
+    + intros x. specialize (C1 x). specialize (C2 x). revert C1 C2. rewrite !map_app, !cnt_app. lia.
 Qed.
 
 End Pair.
@@ -1204,3 +1233,30 @@ Theorem pair_stale_send_completion_refuted fx fr :
   tr_tx tr = [mkPmsg [] [1%N]; mkPmsg [] [2%N]; mkPmsg [] [3%N]] /\
   pr_p s = Some 2%N /\ sendingl s = [mkPmsg [] [3%N]] /\ tr_wloss tr = [].
 Proof. destruct fx; destruct fr; vm_compute; repeat split; reflexivity. Qed.
+
+(* ================= the pinned set_send_buf_len (fr = false, before fix 7c956d7) ================= *)
+(* unbuffered socket, the peer not taking: sends 1 2 3 (2 and 3 block), the send buffer grows
+   to 2 -- the blocked senders are left on the wait list --, send 4 finds room in the buffer and
+   overtakes them: the transport gets 1 4 2 3 *)
+Definition resize_witness : list pop :=
+  [PPipeStart 1%N PROTO_PAIR0;
+   PSend None 1%N false (mkPmsg [] [1%N]); PSend None 2%N false (mkPmsg [] [2%N]); PSend None 3%N false (mkPmsg [] [3%N]);
+   PSetOpt None (OSendBuf 2);
+   PSend None 4%N false (mkPmsg [] [4%N]);
+   PSendDone 1%N 0%N; PSendDone 1%N 0%N; PSendDone 1%N 0%N; PSendDone 1%N 0%N].
+Theorem pair_submission_order_refuted_pinned fx :
+  ops_ok K0 fx false pair_init resize_witness /\
+  let (s, tr) := pair_run K0 fx false pair_init resize_witness in
+  tr_sub K0 tr = [mkPmsg [] [1%N]; mkPmsg [] [2%N]; mkPmsg [] [3%N]; mkPmsg [] [4%N]] /\
+  tr_tx tr = [mkPmsg [] [1%N]; mkPmsg [] [4%N]; mkPmsg [] [2%N]; mkPmsg [] [3%N]] /\
+  tr_subloss tr = [] /\ pend s = [].
+Proof. destruct fx; vm_compute; (split; [intuition discriminate|]); repeat split; reflexivity. Qed.
+(* ... and right after the resize a sender is blocked although the buffer has room *)
+Theorem pair_blocked_sender_not_full_refuted_pinned fx :
+  let s := fst (pair_run K0 fx false pair_init (firstn 5 resize_witness)) in
+  pr_waq s <> [] /\ lmq_full (pr_wmq s) (pr_wcap s) = false.
+Proof. destruct fx; vm_compute; (split; [discriminate|reflexivity]). Qed.
+Theorem pair_submission_order_on_witness fx :
+  let (s, tr) := pair_run K0 fx true pair_init resize_witness in
+  tr_tx tr = [mkPmsg [] [1%N]; mkPmsg [] [2%N]; mkPmsg [] [3%N]; mkPmsg [] [4%N]] /\ tr_sub K0 tr = tr_tx tr.
+Proof. destruct fx; vm_compute; split; reflexivity. Qed.
